@@ -191,7 +191,7 @@ OpProps(op) ==
       [] op \in {"Panel", "OpenQuery", "QNext", "QStep", "QClose", "QCount"} -> <<"C03">>
       [] op \in {"Register", "Unregister"} -> <<"C07">>
       [] op \in {"Reset"} -> <<"C15">>
-      [] op \in {"ResAdd", "ResRemove"} -> <<"C20">>
+      [] op \in {"ResAdd", "ResRemove", "ResGet"} -> <<"C20">>
       [] op \in {"Dump", "Load"} -> <<"C17">>
       [] OTHER -> <<"C10">>
 
@@ -459,8 +459,18 @@ EvLoad(ln, w) ==
         good == why = "" /\ ~ln.res.panic
     IN Res(IF good THEN LoadStep(w, ln.args.dump) ELSE w, OutcomeChecks(ln, why), {})
 
+(* Reading a resource: Get of an absent resource is nil (never a panic), otherwise the exact pointer. *)
+EvResGet(ln, w) ==
+    LET r == ln.args.r
+        present == r \in DOMAIN w.res
+        isHas == ln.api \in {"Resources.Has", "generic.Resource.Has"}
+        ok == IF isHas THEN ln.res.ret = (IF present THEN 1 ELSE 0)
+              ELSE IF present THEN ln.res.ret = w.res[r] /\ ln.same ELSE ln.res.ret = -1
+    IN Res(w, OutcomeChecks(ln, "") \o << Chk("C20", "resource-read", ln.res.panic \/ ok) >>, {})
+
 Eval(ln, w) ==
     CASE ln.op = "NewWorld" -> EvNewWorld(ln, w)
+      [] ln.op = "ResGet" -> EvResGet(ln, w)
       [] ln.op = "Dump" -> EvDump(ln, w)
       [] ln.op = "Load" -> EvLoad(ln, w)
       [] ln.op = "NewEntity" -> EvNewEntity(ln, w)
